@@ -256,6 +256,7 @@ type replayer struct {
 
 	retained []retainedResult // nil = do not retain (diagnostic probes)
 	curStep  int
+	content  func(*blockchain.FilteredEvent) string // overrides checkContent (concurrent round: any version)
 }
 
 // poisonStore lends every value to the Get callback as a private copy and scribbles over it when
@@ -551,6 +552,9 @@ func (r *replayer) query(a *mAct) (res qResult) {
 
 // checkContent compares a returned event with the receipt the harness stored at that position.
 func (r *replayer) checkContent(e *blockchain.FilteredEvent) string {
+	if r.content != nil {
+		return r.content(e)
+	}
 	ob := r.oblock(e.BlockNumber)
 	if ob == nil {
 		return fmt.Sprintf("event in block %d which holds no events", e.BlockNumber)
